@@ -91,11 +91,20 @@ def case(chk, i):
     cargs = []
     if ns:
         items = [it for it in items if it.sub != "macro"]       # macros have no namespace
+        style_flags = []
+        if nsr.random() < 0.5:
+            # enum styles, globally and per enum: what an enum with a fixed underlying typedef needs does not depend on the style of OTHER enums
+            style_flags = ["--default-enum-style", nsr.choice(["rust", "rust", "newtype", "rust_non_exhaustive"])]
+            if nsr.random() < 0.7:
+                style_flags += [nsr.choice(["--constified-enum", "--newtype-enum", "--bitfield-enum", "--rustified-enum"]), ".*E_[0-9a-z_]*[1-5ab]"]
+            # (unnamed enums in these styles become `_bindgen_ty_N` types with namespace-prefixed constants: not modelled here)
+            items = [it for it in items if it.sub != "anon_enum"]
         body = gen_allow.header(items)
         text = "".join("namespace %s {\n" % n for n in ns) + body + "}\n" * len(ns)
         hdr = write(os.path.join(d, "a%d.hpp" % i), text)
         base_flags = base_flags + ["--enable-cxx-namespaces"] + (["--vtable-generation"] if nsr.random() < 0.6 else [])
         cargs = ["--", "-x", "c++", "-std=c++14"]
+        base_flags = base_flags + style_flags
     else:
         hdr = write(os.path.join(d, "a%d.h" % i), gen_allow.header(items))
     nsp = "::".join(ns) + "::" if ns else ""
@@ -281,8 +290,71 @@ def case(chk, i):
     return out
 
 
+ENUM_STYLES = [None, "consts", "rust", "rust_non_exhaustive", "newtype", "newtype_global", "bitfield", "moduleconsts"]
+ENUM_OVERRIDES = [None, "--constified-enum", "--constified-enum-module", "--newtype-enum", "--newtype-global-enum", "--bitfield-enum", "--rustified-enum",
+                  "--rustified-non-exhaustive-enum"]
+
+
+def enum_repr_case(chk, i):
+    """Enums whose underlying type is a user typedef used nowhere else, one enum allowlisted: every (default style x per-enum override x
+    integer translation x namespace) combination. Whatever the enum's own style makes it spell, the output compiles alone and its items
+    are those of the un-allowlisted run."""
+    dstyle = ENUM_STYLES[i % len(ENUM_STYLES)]
+    over = ENUM_OVERRIDES[(i // len(ENUM_STYLES)) % len(ENUM_OVERRIDES)]
+    rest = i // (len(ENUM_STYLES) * len(ENUM_OVERRIDES))
+    translate, ns = bool(rest & 1), bool(rest & 2)
+    rng = chk.rng("enumrepr", i)
+    d = chk.dir("er%d" % (i % 32))
+    und = ["short", "unsigned char", "long", "unsigned int"]
+    rng.shuffle(und)
+    decl = []
+    for k, u in enumerate(und):
+        decl.append("typedef %s small%d_t;" % (u, k))
+        decl.append("enum En%d : small%d_t { En%d_A = 1, En%d_B = 2 };" % (k, k, k, k))
+    decl.append("struct UsesEn { enum En3 e; };")
+    body = "\n".join(decl) + "\n"
+    text = "namespace net {\n%s}\n" % body if ns else body
+    hdr = write(os.path.join(d, "er%d.hpp" % i), text)
+    nsp = "net::" if ns else ""
+    target = rng.choice([0, 1, 2])
+    base = ["--no-layout-tests"] + (["--enable-cxx-namespaces"] if ns else []) + (["--default-enum-style", dstyle] if dstyle else []) \
+        + ([over, ".*En[%d%d]" % (target, (target + 1) % 3)] if over else []) + (["--translate-enum-integer-types"] if translate else [])
+    sel = ["--allowlist-type", "%sEn%d" % (nsp, target)]
+    cargs = ["--", "-x", "c++", "-std=c++14"]
+    name = "enumrepr-%d" % i
+    outs = []
+    for tag, extra in (("full", []), ("sel", sel)):
+        o = os.path.join(d, "er%d_%s.rs" % (i, tag))
+        rc, so, se, _ = sh([build.BINDGEN, hdr] + base + extra + ["-o", o] + cargs, timeout=120, cpu=100)
+        if rc != 0:
+            return Verdict(INCONCLUSIVE, name, "bindgen failed: " + se[-300:])
+        outs.append(o)
+    files = {"header.hpp": text, "flags.txt": " ".join(base + sel), "full.rs": open(outs[0]).read(), "allowlisted.rs": open(outs[1]).read()}
+    obs = {"enum_style_combinations": 1, "enum_default_style.%s" % dstyle: 1, "enum_override.%s" % over: 1}
+    problems = []
+    w = write(os.path.join(d, "erw%d.rs" % i), '#![allow(warnings)]\ninclude!("%s");\n' % outs[1])
+    rcr, sor, ser, _ = sh(["rustc", "--edition", "2021", "--crate-type", "lib", "--emit=metadata", "-o", os.path.join(d, "erw%d.rmeta" % i), w], timeout=120)
+    if rcr != 0:
+        problems.append("allowlisted bindings do not compile on their own: " + ser[:500])
+    a, b = files["allowlisted.rs"], files["full.rs"]
+    if "En%d" % target not in a:
+        problems.append("the allowlisted enum En%d is not emitted" % target)
+    for k in range(4):
+        if k != target and re.search(r"\bEn%d\b" % k, a):
+            problems.append("En%d is unrelated to the allowlisted En%d but emitted" % (k, target))
+    # every line of the allowlisted bindings is a line of the full ones
+    extra_lines = [l for l in a.splitlines() if l.strip() and l.strip() not in set(x.strip() for x in b.splitlines())]
+    if extra_lines:
+        problems.append("lines only in the allowlisted bindings: %s" % extra_lines[:3])
+    if problems:
+        return Verdict(VIOLATED, name, "\n".join(problems)[:2000], files=files, obs=obs)
+    return Verdict(HELD, name, obs=obs, nontrivial=True, key=name)
+
+
 def run(chk):
     chk.add(synthetic_repro(chk))
+    n_er = len(ENUM_STYLES) * len(ENUM_OVERRIDES) * 4
+    chk.map(lambda i: enum_repr_case(chk, i), range(n_er) if chk.tier != "quick" else sorted(chk.rng("er").sample(range(n_er), 64)), budget_s=chk.pick(200, 900))
     chk.map(lambda i: case(chk, i), range(chk.pick(60, 500)), budget_s=chk.pick(400, 2400))
     return chk.finish(
         rule="case = (generated declaration graph of structs, typedefs, enums, unnamed enums, macros, globals and functions with a known "
@@ -291,6 +363,8 @@ def run(chk):
              "other so anchoring matters), optionally a blocklist overlapping the roots and --no-recursive-allowlist; non-trivial = the "
              "closure is a proper subset of the header. Oracle: selected subset of emitted, emitted subset of closure, closure subset of "
              "emitted (recursive), exact equality (non-recursive), no blocklisted root, token identity of every emitted item and its layout "
-             "assertions with the un-allowlisted run, rustc accepts the allowlisted output alone.",
+             "assertions with the un-allowlisted run, rustc accepts the allowlisted output alone. Enum family: enums with fixed underlying user "
+             "typedefs, one allowlisted, over default style x per-enum override x --translate-enum-integer-types x namespaces (64 of the 256 "
+             "combinations per quick run, all in thorough).",
         assumptions=["Python re.fullmatch agrees with the regex crate on the restricted pattern syntax used",
                      "the generator's needs relation is the reference for 'transitively needs'"])
